@@ -33,6 +33,15 @@ U = ['a', 'i', 'd', 'd/x', 'd/y', 'd/e', 'd/e/z']
 CONTENTS = {'A': b'AAAA', 'B': b'BBBB', 'CC': b'CCCCCCC'}
 
 
+def _long(n):
+    # n non-periodic bytes (C13: files around and beyond the 1024-byte read unit of the hash loop)
+    return bytes((i * 7 + i // 251) % 251 + 1 for i in range(n))
+
+
+CONTENTS.update({'K1023': _long(1023), 'K1024': _long(1024), 'K1025': _long(1025), 'K1500': _long(1500),
+                 'K2048': _long(2048), 'K3000': _long(3000)})
+
+
 def import_library():
     """Import file_builder from the tree under test (never from /verif)."""
     if REPO not in sys.path:
@@ -185,7 +194,7 @@ def plain(snapshot, cache_rel=None):
 # External mutations.  A mutation is a JSON list [op, relpath, ...].
 #   ['w', p, key]      write CONTENTS[key] with a fresh mtime
 #   ['touch', p]       rewrite the same bytes with a fresh mtime
-#   ['flip', p]        other bytes, same size, SAME mtime  (C13 only)
+#   ['flip', p]        other bytes, same size, SAME mtime  (C13 only; 'flipend': the LAST byte instead of the first)
 #   ['del', p]         delete regular file
 #   ['mkdir', p]       mkdir (parent must exist)
 #   ['rmdir', p]       rmdir if empty
@@ -231,7 +240,7 @@ def apply_mutation(sb, m, ref_tree=None):
         if ref_tree is not None:
             ref_tree.touch(p)
         return True
-    if op == 'flip':
+    if op in ('flip', 'flipend'):
         if not os.path.isfile(p):
             return False
         st = os.stat(p)
@@ -239,7 +248,7 @@ def apply_mutation(sb, m, ref_tree=None):
             data = f.read()
         if not data:
             return False
-        new = bytes([data[0] ^ 1]) + data[1:]
+        new = (bytes([data[0] ^ 1]) + data[1:]) if op == 'flip' else (data[:-1] + bytes([data[-1] ^ 1]))
         with open(p, 'wb') as f:
             f.write(new)
         os.utime(p, ns=(st.st_atime_ns, st.st_mtime_ns))
